@@ -140,6 +140,9 @@ Judge(t) ==
             IF ~Closed(U, sstore) \/ ~ClosedCut(U, shal0, r0) \/ ~(ClosureCut(U, shal0, SeqSet(t.rtips0)) \subseteq r0)
                \/ ~(srefs \subseteq sstore) THEN "Antecedent"
             ELSE IF sndClause # "ok" THEN (IF t.snd = "g" THEN "SpecVsGit:" \o sndClause ELSE sndClause)
+            \* a request for an object that no advertised ref reaches was served
+            ELSE IF t.forged = 1 /\ ok /\ t.op # "push" /\ t.snd = "d" /\ ~(wants \subseteq Closure(U, srefs))
+                 THEN "WantValidation"
             ELSE IF rcvClause # "ok"
                  THEN (IF t.snd = "g" /\ t.rcv = "g" THEN "SpecVsGit:" \o rcvClause ELSE rcvClause)
             ELSE "ok"
